@@ -11,6 +11,7 @@ package main
 import (
 	"bytes"
 	"encoding/json"
+	"io"
 	"math/rand"
 	"os"
 	"regexp"
@@ -275,7 +276,19 @@ func c14rec(lhs, rhs []int, n int, unify bool, palIdx int, hdr int) Ev {
 	guard(ev, func() {
 		d := mdiff.New(x.strs(lhs), x.strs(rhs))
 		if unify {
-			d.AddContext(n).Unify()
+			// rendering is an observation: doing it before the chunks are widened and merged
+			// must not change what is rendered afterwards
+			if (len(lhs)+n)%2 == 0 {
+				d.Format(io.Discard, mdiff.Context, nil)
+				d.Format(io.Discard, mdiff.Unified, nil)
+				d.Format(io.Discard, mdiff.Normal, nil)
+			}
+			d.AddContext(n)
+			if (len(rhs)+n)%3 == 0 {
+				d.Format(io.Discard, mdiff.Context, nil)
+				d.Format(io.Discard, mdiff.Unified, nil)
+			}
+			d.Unify()
 		}
 		ev["chunks"] = x.chunks(d.Chunks)
 		// header: 0 = none, 1 = names only, 2 = names + timestamps
